@@ -27,6 +27,8 @@ import LianVerif.Drv.Sched
 import LianVerif.Drv.Taint
 import LianVerif.Drv.Fold
 import LianVerif.Drv.Aref
+import LianVerif.Drv.PyImportPre
+import LianVerif.Drv.Meta
 
 open Lean LianVerif.Drv
 
@@ -63,6 +65,8 @@ def dispatch (j : Json) : Except String Json := do
   | "taintrules" => LianVerif.Drv.Taint.handleRules j
   | "fold" => LianVerif.Drv.Fold.handle j
   | "aref" => LianVerif.Drv.Aref.handle j
+  | "pyimportpre" => LianVerif.Drv.PyImportPre.handle j
+  | "meta" => LianVerif.Drv.Meta.handle j
   | _ => throw s!"unknown model {m}"
 
 partial def loop (hin hout : IO.FS.Stream) : IO Unit := do
